@@ -38,7 +38,7 @@ void vs_begin(const vs_config_t* cfg);      /* call from the harness main thread
 void vs_end(void);                          /* all threads created during the execution must be finished */
 int  vs_self(void);                         /* logical id of the running thread (creation order, main = 0) */
 long vs_steps(void);
-long vs_counter(int which);                 /* 0 locks, 1 waits that blocked, 2 signals+broadcasts, 3 threads created, 4 switches */
+long vs_counter(int which);                 /* 0 locks, 1 waits that blocked, 2 signals+broadcasts, 3 threads created, 4 switches, 5 busy-wait points turned into yields */
 uint64_t vs_sched_hash(void);               /* hash of the scheduler-visible state (thread ops, mutex owners, waiter sets) */
 /* Code location of the call that a parked thread is blocked in, as an offset that does not depend on ASLR. */
 uintptr_t vs_thread_site(int tid);
